@@ -12,14 +12,15 @@ import (
 )
 
 const (
-	xRelCb     = 110 // released-callback invocations (ResolveWithReleased)
-	xInvoc     = 111 // Access callback invocations so far
-	xCallerCxl = 112
-	xPhase     = 113
-	xHolding   = 114 // holder currently holds a value (value index) or 0
-	xInvVal0   = 120 // +k value index given to invocation k
-	xInvStale0 = 130 // +k invocation k's value was invalidated before the callback returned
-	xInvDone0  = 140 // +k invocation k returned
+	xRelCb        = 110 // released-callback invocations (ResolveWithReleased)
+	xInvoc        = 111 // Access callback invocations so far
+	xCallerCxl    = 112
+	xPhase        = 113
+	xHolding      = 114 // holder currently holds a value (value index) or 0
+	xCxlBeforeRet = 115 // the caller's context was cancelled before a parked Access callback returned
+	xInvVal0      = 120 // +k value index given to invocation k
+	xInvStale0    = 130 // +k invocation k's value was invalidated before the callback returned
+	xInvDone0     = 140 // +k invocation k returned
 )
 
 var accessErrs = []error{errors.New("cb-error-0"), errors.New("cb-error-1"), errors.New("cb-error-2"), errors.New("cb-error-3")}
@@ -604,6 +605,58 @@ func init() {
 		},
 	})
 
+	eng.Register(&eng.Scenario{
+		Name: "refcount-promise", Props: []string{"C08", "C09", "C10"}, MustFinish: true, ObsNames: stdObs,
+		Doc:   "RefCount.AddRefPromise: a long-lived promise of a held reference yields value 101; the value is invalidated by released() or SetContext(fresh) (choice) while the replacement resolver call does not return: a later Await on the same promise blocks (it does not hand out the value that was dropped and released); once the replacement is resolved (choice: or the context cleared) it returns the new value",
+		Quick: eng.Bounds{PB: 2, Delay: true}, Thorough: eng.Bounds{PB: 3, Delay: true},
+		Body: func() {
+			how := vsched.Choose(2)
+			g := &vsched.Gate{}
+			e := newRC2(bg, false, func(i int) int { return mValue })
+			e.gate2 = g // resolver call 2 waits for this gate before returning
+			prom, ref := e.rc.AddRefPromise()
+			vsched.CtrAdd(rcHeld, 1)
+			vsched.Settle()
+			if v, err := prom.Await(bg); v != valOf(1) || err != nil {
+				fail("C10.wrong-error", "Await on the promise of AddRefPromise returned (%d,%v), want (101,nil)", v, err)
+				return
+			}
+			if f, ok := vsched.GetCell(50).(func()); ok && how == 0 {
+				vsched.CtrSet(rcInv0+1, 1)
+				f()
+			} else {
+				e.setContext(context.WithValue(bg, ctxKey{}, 2))
+			}
+			vsched.Settle() // value 101 dropped and released; resolver call 2 is waiting at the gate
+			T("A", func() {
+				label("Promise.Await")
+				v, err := prom.Await(bg)
+				label("")
+				vsched.Observe(oRet, int64(v), b2i(err != nil), 0)
+				if v == valOf(1) {
+					fail("C08.exposed-after-release", "the promise of AddRefPromise handed out value 101 after its release function had run (%d times)", vsched.Ctr(rcRel0+1))
+					fail("C09.invalidated-value-kept", "value 101 was invalidated and dropped, yet a later Await on the reference's promise still returns it")
+					fail("C10.stale-value", "Await returned value 101 although it had been invalidated, with nothing in flight, before the call began")
+				} else if v != valOf(2) || err != nil {
+					fail("C10.wrong-error", "Await returned (%d,%v), want the replacement (102,nil)", v, err)
+				}
+			})
+			vsched.Settle()
+			g.Open()
+			vsched.Settle()
+			if vsched.CountParked("Promise.Await") > 0 {
+				fail("C09.result-not-delivered", "the replacement value 102 is resolved but Await on the reference's promise is still blocked")
+			}
+			vsched.CtrAdd(rcHeld, -1)
+			ref.Release()
+			vsched.Settle()
+			e.finalRelease()
+			e.setContext(nil)
+			vsched.Settle()
+			e.finalRelease()
+		},
+	})
+
 	// Access
 	accessBody := func(cbModes []int, firstMode int, callerCancel bool, ctxChange bool) func() {
 		return func() {
@@ -642,6 +695,16 @@ func init() {
 						res = context.Canceled
 					case 2: // return an error at once
 						res = accessErrs[k]
+					case 3, 4: // park until the callback context is done, then return nil / an error of its own
+						label("Access-callback")
+						<-cctx.Done()
+						label("Access")
+						if mode == 4 {
+							res = accessErrs[k]
+						}
+						if vsched.Ctr(xCallerCxl) != 0 {
+							vsched.CtrSet(xCxlBeforeRet, 1) // the caller's context was cancelled before this invocation returned
+						}
 					}
 					if invalidated(i, false) {
 						vsched.CtrSet(xInvStale0+k, 1)
@@ -667,6 +730,10 @@ func init() {
 						fail("C10.spurious-cancel", "Access returned context.Canceled although the caller's context is live")
 					}
 				default:
+					if vsched.Ctr(xCxlBeforeRet) != 0 {
+						fail("C10.caller-cancel-lost", "the caller's context was cancelled while the Access callback was running, but Access returned %v instead of context.Canceled", err)
+						return
+					}
 					// nil or a callback error: it must be the result of an invocation on a value that was not invalidated
 					ok := false
 					for k := 0; k < n && k < 4; k++ {
@@ -729,10 +796,10 @@ func init() {
 	})
 	eng.Register(&eng.Scenario{
 		Name: "refcount-access-cancel", Props: []string{"C10"}, ObsNames: stdObs,
-		Doc:   "RefCount.Access with a parked callback, caller-cancel thread, resolver script {value, error, slow} (choice): resolver error and caller cancellation are returned as such, the parked callback is cancelled",
+		Doc:   "RefCount.Access with a callback that parks until its context is cancelled and then returns context.Canceled, nil or an error of its own (choice), caller-cancel thread, resolver script {value, error, slow} (choice): resolver error and caller cancellation are returned as such, the parked callback is cancelled",
 		Quick: eng.Bounds{PB: 3, Delay: true}, Thorough: eng.Bounds{PB: 4, Delay: true},
 		Body: func() {
-			accessBody([]int{1}, []int{mValue, mError, mSlow}[vsched.Choose(3)], true, false)()
+			accessBody([]int{[]int{1, 3, 4}[vsched.Choose(3)]}, []int{mValue, mError, mSlow}[vsched.Choose(3)], true, false)()
 		},
 	})
 }
